@@ -6,8 +6,12 @@ use std::process::{Command, Stdio};
 use std::sync::atomic::{AtomicU64, Ordering};
 use std::time::{Duration, Instant};
 
-pub const BIN: &str = "/verif/target/cli/debug/cteepbd";
-pub const SHIM: &str = "/verif/target/libseed.so";
+pub fn bin() -> String {
+    format!("{}/target/cli/debug/cteepbd", crate::core::verif_root())
+}
+pub fn shim() -> String {
+    format!("{}/target/libseed.so", crate::core::verif_root())
+}
 
 static N: AtomicU64 = AtomicU64::new(0);
 
@@ -22,12 +26,12 @@ pub struct CliOut {
 }
 
 pub fn available() -> bool {
-    std::path::Path::new(BIN).exists()
+    std::path::Path::new(&bin()).exists()
 }
 
 pub fn scratch() -> PathBuf {
     let n = N.fetch_add(1, Ordering::Relaxed);
-    let p = PathBuf::from(format!("/verif/target/run/{}-{}", std::process::id(), n));
+    let p = PathBuf::from(format!("{}/target/run/{}-{}", crate::core::verif_root(), std::process::id(), n));
     let _ = std::fs::create_dir_all(&p);
     p
 }
@@ -42,10 +46,10 @@ pub fn run(args: &[String], inputs: &[(&str, &[u8])], outputs: &[&str], hash_see
     let real: Vec<String> = args.iter().map(|a| if let Some(n) = a.strip_prefix('@') { dir.join(n).to_string_lossy().to_string() } else { a.clone() }).collect();
     let so = std::fs::File::create(dir.join("__stdout")).expect("scratch stdout");
     let se = std::fs::File::create(dir.join("__stderr")).expect("scratch stderr");
-    let mut cmd = Command::new(BIN);
+    let mut cmd = Command::new(bin());
     cmd.args(&real).current_dir(&dir).stdin(Stdio::null()).stdout(so).stderr(se);
     if let Some(s) = hash_seed {
-        cmd.env("LD_PRELOAD", SHIM).env("VERIF_HASH_SEED", s.to_string());
+        cmd.env("LD_PRELOAD", shim()).env("VERIF_HASH_SEED", s.to_string());
     }
     let t0 = Instant::now();
     let mut out = CliOut { status: None, signal: None, timed_out: false, stdout: String::new(), stderr: String::new(), files: vec![], wall: Duration::ZERO };
